@@ -48,7 +48,13 @@ use std::collections::BTreeSet;
 pub const COIN_AMOUNT: u64 = 1_000_000;
 pub const START_MS: i64 = 1_700_000_000_000;
 
-pub fn draw_knobs(ctx: &mut Ctx) -> Knobs {
+/// `hash_seed` is the first tape value of the run (it seeds the std hash maps and tokio). The
+/// swarm modes that were added after the first replays were recorded (`p_join`, `p_rival`) are
+/// derived from it instead of from new draws, so that older tapes keep their meaning; value 0
+/// switches both off, and a mode that is off draws nothing and changes no weight.
+pub fn draw_knobs(ctx: &mut Ctx, hash_seed: u64) -> Knobs {
+    let p_join = [0u64, 20, 45][(hash_seed % 3) as usize];
+    let p_rival = [0u64, 15, 35][((hash_seed >> 8) % 3) as usize];
     let t = &mut ctx.tape;
     let max_txs = 2 + t.choose(7) as usize;
     let max_gas = match t.choose(3) {
@@ -59,7 +65,12 @@ pub fn draw_knobs(ctx: &mut Ctx) -> Knobs {
         0 | 1 => usize::MAX / 4,
         _ => (300 + t.choose(1700)) as usize,
     };
-    let chain_count = 2 + t.choose(3) as usize;
+    let mut chain_count = 2 + t.choose(3) as usize;
+    if p_join > 0 {
+        // a transaction with two pooled parents needs room for three in its chain
+        chain_count = chain_count.max(3);
+    }
+    let max_txs = if p_join > 0 { max_txs.max(3) } else { max_txs };
     let pending_pct = *t.pick(&[100u16, 50, 100, 0, 25]);
     let pending_ttl_ms = *t.pick(&[3000u64, 3000, 100, 10]);
     let tx_ttl_ms = *t.pick(&[600_000u64, 1000, 50]);
@@ -101,7 +112,15 @@ pub fn draw_knobs(ctx: &mut Ctx) -> Knobs {
             w[3] += 6;
         }
         "C21" => w[4] += 4,
+        // families are only interesting when blocks and extractions cut through them
+        "C17" if p_join > 0 => {
+            w[1] += 4;
+            w[3] += 4;
+        }
         _ => {}
+    }
+    if bias == "C18" && p_join > 0 {
+        w[3] += 4;
     }
     Knobs {
         max_txs,
@@ -122,6 +141,8 @@ pub fn draw_knobs(ctx: &mut Ctx) -> Knobs {
         p_conflict_handed,
         p_batch,
         w_actions: w,
+        p_join,
+        p_rival,
     }
 }
 
@@ -297,13 +318,14 @@ impl<'a> Sim<'a> {
         out
     }
 
-    fn pick_coin(&mut self, taken: &[UtxoId]) -> Option<CoinIn> {
+    /// `boost` is added to the weight of coins that a pooled transaction already spends.
+    fn pick_coin(&mut self, taken: &[UtxoId], boost: u64) -> Option<CoinIn> {
         let k = &self.k;
         let w = [
             60u64,
-            k.p_collide,
+            k.p_collide + boost,
             k.p_dependent,
-            k.p_collide / 2,
+            (k.p_collide + boost) / 2,
             10,
             k.p_conflict_handed,
             6,
@@ -380,8 +402,16 @@ impl<'a> Sim<'a> {
     /// Builds a new transaction (not submitted yet). `None` if the draw was not a valid
     /// transaction (stateless checks of `into_checked_basic`).
     pub fn gen_tx(&mut self) -> Option<TxId> {
+        // a transaction joining outputs of several pooled transactions
+        if self.k.p_join > 0 && self.ctx.tape.chance(self.k.p_join, 100) {
+            if let Some(r) = self.gen_join() {
+                return r;
+            }
+        }
         // replacement of a known transaction: same shape, different tip
-        if !self.order.is_empty() && self.ctx.tape.chance(self.k.p_collide, 200) {
+        if !self.order.is_empty()
+            && self.ctx.tape.chance(self.k.p_collide + self.k.p_rival, 200)
+        {
             let base = if !self.pool.is_empty() && self.ctx.tape.chance(3, 4) {
                 let v: Vec<TxId> = self.pool.iter().copied().collect();
                 v[self.ctx.tape.below(v.len())]
@@ -399,10 +429,39 @@ impl<'a> Sim<'a> {
             };
             spec.salt = spec.salt.wrapping_add(5); // same witness length => same gas
             self.ctx.probe("gen_replacement");
+            if self.k.p_rival > 0 && self.ctx.tape.chance(2 * self.k.p_rival, 100) {
+                // a rival rather than a replacement: it keeps what it contests with the
+                // original (blob id, contract, the other inputs) but one coin input is drawn
+                // anew, preferably one that some pooled transaction spends already
+                let coin_ix: Vec<usize> = spec
+                    .inputs
+                    .iter()
+                    .enumerate()
+                    .filter(|(_, i)| matches!(i, InSpec::Coin(_)))
+                    .map(|(i, _)| i)
+                    .collect();
+                if !coin_ix.is_empty() {
+                    let ix = coin_ix[self.ctx.tape.below(coin_ix.len())];
+                    let taken: Vec<UtxoId> = spec
+                        .inputs
+                        .iter()
+                        .enumerate()
+                        .filter_map(|(i, x)| match x {
+                            InSpec::Coin(c) if i != ix => Some(c.utxo),
+                            _ => None,
+                        })
+                        .collect();
+                    if let Some(c) = self.pick_coin(&taken, 80) {
+                        spec.inputs[ix] = InSpec::Coin(c);
+                        self.ctx.probe("gen_rival");
+                    }
+                }
+            }
             return self.register(spec);
         }
 
-        let kind = match self.ctx.tape.weighted(&[80, 12, 8]) {
+        let kind_w: [u64; 3] = if self.k.p_rival > 0 { [60, 15, 25] } else { [80, 12, 8] };
+        let kind = match self.ctx.tape.weighted(&kind_w) {
             0 => Kind::Script,
             1 => Kind::Create {
                 code: self.ctx.tape.choose(3) as u8,
@@ -428,7 +487,7 @@ impl<'a> Sim<'a> {
             };
             match what {
                 0 => {
-                    if let Some(c) = self.pick_coin(&taken_coins) {
+                    if let Some(c) = self.pick_coin(&taken_coins, 0) {
                         taken_coins.push(c.utxo);
                         if c.asset == AssetId::BASE {
                             total_in = total_in.saturating_add(c.amount);
@@ -458,13 +517,80 @@ impl<'a> Sim<'a> {
         }
         if total_in == 0 {
             // at least one spendable input
-            let c = self.pick_coin(&taken_coins)?;
+            let c = self.pick_coin(&taken_coins, 0)?;
             total_in = c.amount;
             inputs.insert(0, InSpec::Coin(c));
         }
-        let n_out = self.ctx.tape.weighted(&[25, 45, 20, 10]);
+        self.finish_tx(kind, inputs, total_in, false)
+    }
+
+    /// Inputs: one unused coin output of each of two (rarely three) different pooled
+    /// transactions, sometimes fresh funds from the chain on top. `None`: the pool does not
+    /// offer that right now.
+    fn gen_join(&mut self) -> Option<Option<TxId>> {
+        let mut by_creator: std::collections::BTreeMap<TxId, Vec<(UtxoId, CoinRec)>> =
+            Default::default();
+        for (u, r) in self.coin_candidates(2) {
+            by_creator.entry(*u.tx_id()).or_default().push((u, r));
+        }
+        if by_creator.len() < 2 {
+            self.ctx.probe("gen_join_not_possible");
+            return None;
+        }
+        // in order of creation, so that tape value 0 is the oldest transaction
+        let mut creators: Vec<TxId> = by_creator.keys().copied().collect();
+        creators.sort_by_key(|c| self.txs[c].n);
+        let want = if creators.len() > 2 && self.ctx.tape.chance(1, 4) { 3 } else { 2 };
+        let mut inputs = Vec::new();
+        let mut taken = Vec::new();
+        let mut total_in: u64 = 0;
+        for _ in 0..want {
+            let c = creators.remove(self.ctx.tape.below(creators.len()));
+            let outs = &by_creator[&c];
+            let (u, r) = outs[self.ctx.tape.below(outs.len())].clone();
+            if r.asset == AssetId::BASE {
+                total_in = total_in.saturating_add(r.amount);
+            }
+            taken.push(u);
+            inputs.push(InSpec::Coin(CoinIn {
+                utxo: u,
+                owner: r.owner,
+                amount: r.amount,
+                asset: r.asset,
+            }));
+        }
+        if self.ctx.tape.chance(1, 3) {
+            if let Some(c) = self.pick_coin(&taken, 0) {
+                if c.asset == AssetId::BASE {
+                    total_in = total_in.saturating_add(c.amount);
+                }
+                inputs.push(InSpec::Coin(c));
+            }
+        }
+        self.ctx.probe("gen_join");
+        Some(self.finish_tx(Kind::Script, inputs, total_in, false))
+    }
+
+    /// Outputs and policies of a new transaction with the given inputs.
+    /// `coin_out_first`: output 0 is a coin output in any case.
+    fn finish_tx(
+        &mut self,
+        kind: Kind,
+        inputs: Vec<InSpec>,
+        total_in: u64,
+        coin_out_first: bool,
+    ) -> Option<TxId> {
+        // families need coin outputs to grow on
+        let n_out_w: [u64; 4] = if self.k.p_join > 0 { [10, 40, 30, 20] } else { [25, 45, 20, 10] };
+        let n_out = self.ctx.tape.weighted(&n_out_w);
         let mut outputs = Vec::new();
-        let share = (total_in / (2 * (n_out as u64 + 1))).max(1);
+        let share = (total_in / (2 * (n_out as u64 + 1 + coin_out_first as u64))).max(1);
+        if coin_out_first {
+            outputs.push(OutSpec::Coin {
+                to: txs::owner(0),
+                amount: share,
+            });
+        }
         let mut change_used = false;
         for _ in 0..n_out {
             match self.ctx.tape.weighted(&[75, 15, 10]) {
@@ -520,6 +646,17 @@ impl<'a> Sim<'a> {
                     return Some(rec.id);
                 }
                 let id = rec.id;
+                let rivals = self
+                    .pool
+                    .iter()
+                    .filter(|p| rec.conflicts_with(&self.txs[*p]).is_some())
+                    .count();
+                if rivals > 1 {
+                    self.ctx.probe("gen_conflicts_with_several_pooled");
+                    if rec.blob.is_some() {
+                        self.ctx.probe("gen_blob_conflicts_with_several_pooled");
+                    }
+                }
                 self.ctx.ev(format!("  built {}", self.describe(&rec)));
                 self.txs.insert(id, rec);
                 self.specs.insert(id, spec);
@@ -575,7 +712,68 @@ impl<'a> Sim<'a> {
     // parties
     // =====================================================================================
 
+    /// A wallet sends a small family at once: two (rarely three) transactions with a coin
+    /// output each and one transaction that spends an output of every one of them. Usually in
+    /// order of dependency, sometimes not (the child then waits in the pending pool).
+    fn submit_family(&mut self) {
+        let n_roots = if self.ctx.tape.chance(1, 4) { 3 } else { 2 };
+        let mut taken: Vec<UtxoId> = Vec::new();
+        let mut family: Vec<TxId> = Vec::new();
+        let mut inputs = Vec::new();
+        let mut total_in: u64 = 0;
+        for _ in 0..n_roots {
+            let Some(c) = self.pick_coin(&taken, 0) else { continue };
+            taken.push(c.utxo);
+            let amount = c.amount;
+            let Some(id) = self.finish_tx(Kind::Script, vec![InSpec::Coin(c)], amount, true) else {
+                continue;
+            };
+            if family.contains(&id) {
+                continue;
+            }
+            family.push(id);
+            let u = UtxoId::new(id, 0);
+            if let Some(r) = self.coin_output_rec(&u) {
+                total_in = total_in.saturating_add(r.amount);
+                inputs.push(InSpec::Coin(CoinIn {
+                    utxo: u,
+                    owner: r.owner,
+                    amount: r.amount,
+                    asset: r.asset,
+                }));
+            }
+        }
+        if inputs.len() > 1 {
+            if let Some(id) = self.finish_tx(Kind::Script, inputs, total_in, false) {
+                family.push(id);
+                self.ctx.probe("gen_family");
+            }
+        }
+        if self.ctx.tape.chance(1, 4) {
+            self.ctx.tape.shuffle(&mut family);
+        }
+        for id in family {
+            if !self.unsubmitted.contains(&id) {
+                continue; // an identical draw of something that is on its way already
+            }
+            self.unsubmitted.retain(|x| *x != id);
+            let from_p2p = self.ctx.tape.chance(1, 3);
+            self.ctx.op(format!(
+                "{} submits {} (new, family)",
+                if from_p2p { "peer" } else { "client" },
+                self.name(&id)
+            ));
+            let tx = self.txs[&id].pool_tx.clone();
+            assert!(self.worker.enqueue_insert(tx, from_p2p));
+            self.q_insert.push_back(id);
+        }
+    }
+
     pub fn act_submit(&mut self) {
+        if self.k.p_join > 0 && self.ctx.tape.chance(self.k.p_join / 3, 100) {
+            self.submit_family();
+            return;
+        }
         let count = if self.ctx.tape.chance(self.k.p_batch, 100) {
             2 + self.ctx.tape.choose(2)
         } else {
@@ -1024,7 +1222,12 @@ impl<'a> Sim<'a> {
             }
         }
         let pooled: Vec<TxId> = self.pool.iter().copied().collect();
-        let p_pool = *self.ctx.tape.pick(&[0u64, 15, 50]);
+        let p_pool = if self.k.p_join > 0 {
+            // blocks of another producer cut through the pooled families
+            *self.ctx.tape.pick(&[30u64, 15, 50])
+        } else {
+            *self.ctx.tape.pick(&[0u64, 15, 50])
+        };
         for id in pooled {
             if p_pool > 0 && self.ctx.tape.chance(p_pool, 100) {
                 cands.push(id);
